@@ -19,6 +19,7 @@ THEOREMS_LIFE = [
     "Aio.C20.cleanup_iff_started_runner_single",
     "Aio.C20.cleanup_iff_started_run_app_single_partial",
     "Aio.C20.run_app_eq_runner_when_startup_succeeds",
+    "Aio.C20.cleanup_iff_started_tree_partial",
     "Aio.C20.f16_run_app_setup_outside_try",
     "Aio.C20.run_app_failed_startup_never_cleans",
     "Aio.C20.subapp_contexts_skipped_after_failed_startup",
@@ -268,6 +269,9 @@ def oracle_life(ctx, case, log, res):
                 sig = "C20/on_shutdown-raises/cleanup-skipped"
             elif setup_failed and not c.startswith("0."):
                 sig = "C20/startup-failed/subapp-contexts-not-cleaned"
+            elif any(e[0] == "x" and e[1:].split(".")[0] == c.split(".")[0] for e in failed):
+                # a failing cleanup code must not stop the other contexts of the same application
+                sig = "C20/exit-raises/other-contexts-of-same-app-not-cleaned"
             elif cleanup_failed:
                 sig = "C20/cleanup-step-raises/remaining-apps-not-cleaned"
             else:
@@ -437,7 +441,7 @@ def check_life(ctx):
         for t in single_failures(tbl):
             for e in ENTRIES:
                 cases.append((e, t))
-    n_rand = 900 if ctx.quick else 12000
+    n_rand = 3000 if ctx.quick else 25000
     for k in range(n_rand):
         t = gen_table(rng, rng.choice([0.0, 0.08, 0.15, 0.3]))
         r = rng.random()
